@@ -47,7 +47,7 @@ func c3ArmSSA(c *Ctx, fn *ssa.Function, kv int64) *armInfo {
 	slots := map[string]bool{}
 	if st, ok := field.Underlying().(*types.Struct); ok {
 		for i := 0; i < st.NumFields(); i++ {
-			slots[st.Field(i).Name()] = true
+			slots[FN(st.Field(i))] = true
 		}
 	}
 	isField := func(t types.Type) bool {
